@@ -13,8 +13,15 @@ file the CLI reads.  `Scale(-1)` really goes through float64: `scaleNeg1` is tha
 `neg` the exact one; the `_f64_partial` theorems are the statements about the code as it is,
 under the hypothesis (`InF64`) that excludes known finding `C07/scale/|v|>2^53`, and the
 `…_witness` theorems show the unrestricted statements fail on the float model.
-`scaleN` carries the REPAIRED survival rule (fixes/C07-scalen-keep-nonzero.patch);
-`pinned_scaleN_drops_nonzero_witness` states the defect of the pinned tree.
+`scaleN` carries the REPAIRED survival rule (fixes/C07-scalen-keep-nonzero.patch, which cannot be
+committed because upstream TestNormalizeByDifferentProfile encodes the dropping); `scaleNPinned`
+is the rule of the tree as it is (known finding
+`C07/scaleN/drops-sample-nonzero-only-in-unscaled-columns`): `scaleN_keeps_nonzero_samples` is the
+full statement, proved of the repaired rule; `scaleN_keeps_nonzero_samples_partial` proves it of
+the code as it is when every column is really scaled (Scale(-1), uniform ratios, all units
+converted), and `pinned_scaleN_drops_nonzero_witness` shows the full statement fails of the
+pinned rule.  The harness compares the real code with BOTH models and reports the known signature
+only when the output is exactly the pinned model's.
 -/
 namespace PV.Props.C07
 open PV PV.Combine
@@ -172,6 +179,21 @@ theorem scaleN_keeps_nonzero_samples (rs : List Ratio) (n : Nat) (p q : Prof)
     (∀ s ∈ p, isZero (scaleVec rs s.2) = false → (s.1, scaleVec rs s.2) ∈ q) ∧
       (∀ t ∈ q, ∃ s ∈ p, t = (s.1, scaleVec rs s.2)) :=
   ⟨fun s hs hnz => scaleN_mem rs n p q h hw s hs hnz, fun t ht => scaleN_sound rs n p q h hw t ht⟩
+
+/-- the code as it is: when no ratio equals 1 (every column is scaled) the pinned rule IS the
+repaired rule, so nothing with a non-zero value is lost.  Full statement (no hypothesis on the
+ratios) is `scaleN_keeps_nonzero_samples` with `scaleNPinned` for `scaleN`; it is false, see the
+witness below. -/
+theorem scaleN_keeps_nonzero_samples_partial (rs : List Ratio) (n : Nat) (p q : Prof)
+    (h1 : ∀ r ∈ rs, r.isOne = false) (h : scaleNPinned rs n p = .ok q) (hw : WF n p) :
+    (∀ s ∈ p, isZero (scaleVec rs s.2) = false → (s.1, scaleVec rs s.2) ∈ q) ∧
+      (∀ t ∈ q, ∃ s ∈ p, t = (s.1, scaleVec rs s.2)) := by
+  rw [scaleNPinned_eq_scaleN rs n p h1] at h
+  exact scaleN_keeps_nonzero_samples rs n p q h hw
+
+example : (∀ r ∈ [Ratio.ofInt (-1), Ratio.ofInt (-1)], r.isOne = false) ∧
+    scaleNPinned [Ratio.ofInt (-1), Ratio.ofInt (-1)] 2 [(kA, [7, 0]), (kB, [0, 0])] = .ok [(kA, [-7, 0])] := by
+  decide
 
 /-- the pinned tree's rule drops `[7, 0]` scaled by `[1, 1024]` although 7 ≠ 0 survives scaling. -/
 theorem pinned_scaleN_drops_nonzero_witness :
